@@ -116,7 +116,7 @@ pub fn gen_case(rng: &mut Rng, flavour: Flavour, thorough: bool) -> ModelCase {
     ops.insert(
       at,
       Op::Relocate {
-        original: rng.below(3) as u8,
+        original: rng.below(4) as u8,
         naming: rng.below(6) as u8,
       },
     );
@@ -372,6 +372,7 @@ pub fn run_case(case: &ModelCase, wroot: &Path, flavour: Flavour, stats: &mut St
   used_roots.insert("data.bak".to_string());
   let mut generation = 0usize;
   let mut relocated = false;
+  let mut held_originals: Vec<Index> = Vec::new();
   let mut c14_differential_only = false;
   let mut original_listing: Option<(PathBuf, BTreeMap<PathBuf, Vec<u8>>)> = None;
   let mut session = match Session::create(cfg, &root, fs.clone()) {
@@ -415,6 +416,13 @@ pub fn run_case(case: &ModelCase, wroot: &Path, flavour: Flavour, stats: &mut St
       stats.inc("op.relocate");
       session.writers.clear();
       session.readers.clear();
+      if *original == 3 {
+        // the original stays open in this process while the copy is used
+        if let Some(i) = session.index.take() {
+          held_originals.push(i);
+          stats.inc("probe.original_handle_kept_open");
+        }
+      }
       session.index = None;
       reader_expect.clear();
       model.reopen();
@@ -437,7 +445,7 @@ pub fn run_case(case: &ModelCase, wroot: &Path, flavour: Flavour, stats: &mut St
       let newroot = wroot.join(name);
       copy_tree(fs, &root, &newroot);
       match original {
-        0 => {
+        0 | 3 => {
           let listing = fs.with(|c| c.live_files().into_iter().filter(|(p, _)| p.starts_with(&root)).collect());
           original_listing = Some((root.clone(), listing));
         }
